@@ -187,6 +187,13 @@ def run(repo: Repo, chk: Check, thorough: bool = False) -> None:
     if not enable:
         raise AnalysisError('_OperatorDelimiter.__init__: statement enabling the parentheses (self.discard = False) not found')
     sl = _slice(init, enable[0])
+    # the decision may be computed by a private method of the delimiter (`precedence < self._get_parent_precedence(node, parent_node)`): what that
+    # method returns depends on all of its statements - they belong to the slice
+    dhelpers = [g for g in repo.funcs.values() if g.cls is init.cls and g is not init and g.name.startswith('_') and not g.name.startswith('__') and
+                any(isinstance(n, ast.Call) and call_name(n) == g.name for x in sl for n in ast.walk(x))]
+    for g in dhelpers:
+        for r_ in [n for n in g.walk() if isinstance(n, ast.Return)]:
+            sl |= _slice(g, r_)
     slice_txt = ' ; '.join(sorted({norm(x)[:60] for x in sl if isinstance(x, ast.stmt)}))
     # (a) Pow parent raises the threshold
     powtest = any(isinstance(n, ast.Call) and call_name(n) == 'isinstance' and 'Pow' in norm(n) for x in sl for n in ast.walk(x))
@@ -248,8 +255,18 @@ def run(repo: Repo, chk: Check, thorough: bool = False) -> None:
     # child precedence: the local assigned from get_op_precedence(node.op); parent precedence: from get_op_precedence(parent.op)
     childv = names_assigned_from(init, lambda v: isinstance(v, ast.Call) and call_name(v) == 'get_op_precedence' and norm(v.args[0]) == 'node.op')
     parentv = names_assigned_from(init, lambda v: isinstance(v, ast.Call) and call_name(v) == 'get_op_precedence' and norm(v.args[0]) != 'node.op')
+
+    def _is_parent_prec(e: ast.AST) -> bool:
+        if norm(e) in parentv:
+            return True
+        for g in dhelpers:      # the value handed back by the helper that computes the parent's precedence
+            if isinstance(e, ast.Call) and call_name(e) == g.name:
+                gv = names_assigned_from(g, lambda v: isinstance(v, ast.Call) and call_name(v) == 'get_op_precedence' and norm(v.args[0]) != 'node.op')
+                if any(isinstance(r_, ast.Return) and r_.value is not None and norm(r_.value) in gv for r_ in g.walk()):
+                    return True
+        return False
     cmp_ok = any(isinstance(n, ast.Compare) and len(n.ops) == 1 and isinstance(n.ops[0], (ast.Lt, ast.LtE)) and
-                 norm(n.left) in childv and norm(n.comparators[0]) in parentv for x in sl for n in ast.walk(x))
+                 norm(n.left) in childv and _is_parent_prec(n.comparators[0]) for x in sl for n in ast.walk(x))
     chk.ob('R15.3', f'{DELIM}.__init__ :: parentheses when the child binds weaker than its parent', cmp_ok,
            '`precedence < parent_precedence` enables the parentheses' if cmp_ok else 'comparison direction changed', init.loc)
     # the default parent precedence (non operator parents) is the highest unless set explicitly
@@ -721,14 +738,19 @@ def run(repo: Repo, chk: Check, thorough: bool = False) -> None:
     # the callee and the subscripted value are not - `(a or b)[0]` would be shown as `a or b[0]`.  A lowered default needs an identity test of the field
     di = repo.func(f'{DELIM}.__init__')
     cfd = CFG(di)
-    gets = [c for c in calls_in(di) if call_name(c) == 'get' and isinstance(c.func, ast.Attribute) and 'explicit_precedence' in norm(c.func.value)]
+    # (__init__ together with the private methods of the delimiter it computes the precedences in)
+    from ..util import impl_funcs as _impl15
+    di_units = _impl15(repo, di, depth=1)
+    gets_u = [(u, c) for u in di_units for c in calls_in(u) if call_name(c) == 'get' and isinstance(c.func, ast.Attribute) and 'explicit_precedence' in norm(c.func.value)]
+    gets = [c for _, c in gets_u]
     if not gets:
         raise AnalysisError('R15.9: _OperatorDelimiter.__init__ no longer reads explicit_precedence.get(node, <default>)')
-    for k_, c in enumerate(gets):
+    for k_, (u_, c) in enumerate(gets_u):
+        cfu_ = cfd if u_ is di else CFG(u_)
         dflt = c.args[1] if len(c.args) > 1 else None
         high = dflt is not None and norm(dflt).endswith('Precedence.highest')
         field_test = any(pol and isinstance(t, ast.Compare) and len(t.ops) == 1 and isinstance(t.ops[0], ast.Is) and isinstance(t.comparators[0], ast.Attribute)
-                         for t, pol in cfd.dominating_tests(cfd.stmt_of(c)))
+                         for t, pol in cfu_.dominating_tests(cfu_.stmt_of(c)))
         chk.ob('R15.9', f'{DELIM}.__init__ :: default precedence #{k_ + 1} of a position nothing was forced onto is the highest', high or field_test,
                'Precedence.highest' if high else 'lowered under an identity test of the field that holds the operator' if field_test else
                f'default `{norm(dflt) if dflt is not None else "None"}` chosen from the class of the parent alone: the operator may be the callee / the subscripted value, where no delimiter '
